@@ -311,6 +311,26 @@ class Check:
             "ok" if must == "pass" else "ablation violated " + str(r.violated), r.distinct, r.generated, r.wall))
         return r
 
+    def proof(self, module, note="", timeout=900):
+        """TLAPS: an unbounded inductive-invariant proof that complements the bounded TLC run (a bonus, never a verdict:
+        a proof that no longer goes through is a machinery error)."""
+        wd = os.path.join(self.wd, "tlaps_" + module)
+        os.makedirs(wd, exist_ok=True)
+        for f in os.listdir(SPEC):
+            if f.endswith(".tla"):
+                shutil.copy(os.path.join(SPEC, f), wd)
+        t = time.time()
+        try:
+            r = subprocess.run(["tlapm", "--threads", "8", module + ".tla"], cwd=wd, capture_output=True, text=True, timeout=timeout)
+        except FileNotFoundError:
+            raise Machinery("tlapm not installed")
+        out = r.stdout + r.stderr
+        m = re.search(r"All (\d+) obligations? proved", out)
+        if r.returncode != 0 or not m:
+            raise Machinery("TLAPS proof %s did not go through:\n%s" % (module, out[-2000:]))
+        self.cov.setdefault("proofs", []).append({"module": module, "obligations_proved": int(m.group(1)), "wall_s": round(time.time() - t, 1), "note": note})
+        log("[%s] TLAPS %s: %s obligations proved %.1fs" % (self.prop, module, m.group(1), time.time() - t))
+
     # ---- harness
     def harness(self):
         if not hasattr(self, "_bin"):
